@@ -52,7 +52,7 @@ static Cfg make_cfg(uint64_t seed, long ci) {
     }
     c.level = r.chance(1, 2) ? 0 : 6;
     c.trailer = r.chance(1, 2);
-    int n = (c.kind == 5 || c.kind == 6) ? r.below(3) : 1 + r.below(c.shipped ? 3 : 6);
+    int n = (c.kind == 5 || c.kind == 6) ? r.below(3) : r.chance(1, 10) ? 0 : 1 + r.below(c.shipped ? 3 : 6);   // incl. the empty file / empty session
     long b = c.B > 0 ? c.B : 0x20000;
     for (int i = 0; i < n; i++) {
         long s;
